@@ -42,6 +42,11 @@ def build(fname, method, n, order, gen, shared=None, cls='Derivative'):
         kw['step'] = shared['max'] if shared else MaxStepGenerator()
     elif gen == 'min':
         kw['step'] = shared['min'] if shared else MinStepGenerator()
+    elif gen in ('max+opts', 'min+opts'):
+        # step options given NEXT TO a generator object (whatever the library does with them, it must not do it to the
+        # caller's generator, which other objects share)
+        kw['step'] = shared[gen[:3]] if shared else (MaxStepGenerator() if gen[:3] == 'max' else MinStepGenerator())
+        kw.update(step_nom=1000.0, offset=2, num_extrap=3)
     elif gen == 'ratio3':
         kw['step_ratio'] = 3
     return getattr(nd, cls)(FUNS[fname], **kw)
